@@ -50,8 +50,10 @@ RULE = (
     "signatures: hand-written corpus + random (0-5 params over 11 python types, optional / defaulted / keyword-only, "
     "unary+stream, ctx or not, optional protocol_version); per signature: client-framed valid requests (defaults omitted at "
     "random) and every single perturbation of a valid raw request from the catalogue (rename, swap/rotate/reverse, add, "
-    "drop, retype table per type, nullability flip, null per position, enum/dataclass value corruption, rows 0/2, URL/IPC "
-    "name mismatch, version mismatch) plus random pairs; x 2 sites per method kind; a case is distinct by "
+    "drop, retype table per type incl. widenings / dictionary / view / run-end encodings and values without a Python "
+    "counterpart or failing IPC validation, nullability flip, field metadata, null per position, enum/dataclass/utf8 value "
+    "corruption, rows 0/2/3, URL/IPC name mismatch, version mismatch) plus random pairs; x 2 sites per method kind "
+    "(all four sites: pipe unary, pipe stream, HTTP unary, HTTP /init); a case is distinct by "
     "(signature, site, request bytes) and non-trivial when the signature has at least one parameter or the method raises"
 )
 PARTIAL = [
@@ -147,6 +149,7 @@ RETYPE: dict[str, list[tuple[Any, Any]]] = {
     "int": [("int32", lambda v: v % 1000), ("int16", lambda v: v % 1000), ("uint64", lambda v: abs(v) % 1000), ("float64", float),
             ("string", str), (["ts", "s"], lambda v: v % 1000), (["ts", "s"], lambda v: 2**62), (["dur", "s"], lambda v: 2**62),
             ("date64", lambda v: 2**62), ("bool", bool), ("null", lambda v: None), (["dict", "int32", "int64"], _same),
+            (["ree", "int32", "int64"], _same), (["decimal", 20, 0], lambda v: __import__("decimal").Decimal(v % 1000)),
             (["ts", "s", "Not/AZone"], lambda v: 0)],
     "float": [("float32", lambda v: 1.5), ("int64", lambda v: 1), ("string", str), ("float16", lambda v: 1.5)],
     "str": [("large_string", _same), ("string_view", _same), ("binary", lambda v: v.encode()), (["dict", "int32", "string"], _same),
@@ -233,6 +236,9 @@ def perturbations(rng: Any, m: dict[str, Any], cols: list[dict[str, Any]]) -> li
         c[i]["nullable"] = not c[i]["nullable"]
         out.append((f"nullflip:{i}", c, 1))
         c = cp()
+        c[i]["meta"] = True
+        out.append((f"fieldmeta:{i}", c, 1))
+        c = cp()
         c[i]["val"] = None
         out.append((f"null:{i}:{'opt' if ps[i]['opt'] else 'req'}", c, 1))
         c = cp()
@@ -242,6 +248,8 @@ def perturbations(rng: Any, m: dict[str, Any], cols: list[dict[str, Any]]) -> li
         for t, f in RETYPE[ps[i]["ty"]]:
             c = cp()
             c[i]["ty"] = t
+            if isinstance(c[i]["val"], dict) and "raw" in c[i]["val"]:
+                continue  # a hand-made buffer: keep it on its own column type
             old = sg.dec_wire(c[i]["val"])
             if old is None and t != "null":
                 c[i]["val"] = None
@@ -937,9 +945,6 @@ def explore_signature(ctx: Any, params: list[dict[str, Any]], rng: Any, *, versi
                 for transport, meth in site_pairs:
                     check_case(ctx, svc, make_case(methods, version, transport, meth, r2, "version"))
         perts = perturbations(rng, m, base)
-        if not full:
-            # quick tier: all structural perturbations on one site each, a sample on the other
-            pass
         for idx, (label, cols, rows) in enumerate(perts):
             try:
                 r2 = sg.raw_request(m["name"], cols, rows, protocol_version=version)
@@ -947,7 +952,7 @@ def explore_signature(ctx: Any, params: list[dict[str, Any]], rng: Any, *, versi
                 ctx.tag("pert:unbuildable")
                 continue
             for j, (transport, meth) in enumerate(site_pairs):
-                if full or (idx + j) % 2 == 0 or rng.random() < 0.15:
+                if full or rng.random() < 0.55:
                     check_case(ctx, svc, make_case(methods, version, transport, meth, r2, label))
         for _ in range(n_pairs):
             (l1, c1, r1) = rng.choice(perts)
@@ -994,13 +999,13 @@ def run(ctx: Any) -> None:
     excs = sorted(sg.method_exceptions())
     # hand-written signatures first: each once plain, and with a raising method / a version
     for i, params in enumerate(CORPUS_SIGS):
-        explore_signature(ctx, params, rng, version=None, behave="ok", use_ctx=i % 2 == 0, n_pairs=ctx.budget(6, 60), full=full or i < 2)
+        explore_signature(ctx, params, rng, version=None, behave="ok", use_ctx=i % 2 == 0, n_pairs=ctx.budget(6, 60), full=True)
     for i, ex in enumerate(excs):
         explore_signature(ctx, CORPUS_SIGS[(i % 3) + 2] if full else CORPUS_SIGS[i % 3], rng, version="1.2.3" if i % 4 == 0 else None,
                           behave={"raise": ex}, use_ctx=i % 2 == 1, n_pairs=ctx.budget(2, 30), full=full)
     explore_signature(ctx, CORPUS_SIGS[3], rng, version="1.2.3", behave="ok", use_ctx=True, n_pairs=ctx.budget(4, 40), full=full)
     # random signatures
-    for k in range(ctx.budget(14, 400)):
+    for k in range(ctx.budget(30, 400)):
         m = gen_method(rng, "m0", "unary")
         explore_signature(ctx, m["params"], rng, version="1.2.0" if rng.random() < 0.15 else None, behave=m["behave"],
                           use_ctx=m["ctx"], n_pairs=ctx.budget(4, 30), full=full and k % 4 == 0)
